@@ -138,4 +138,169 @@ theorem chordBooked_natural_zero (path : List (Pos Float32))
     rw [toRat_zero, sub_zero] at this
     exact this
 
+/-! ## (2) the arc-length clause across segments -/
+
+theorem interpBound_nonneg : 0 ≤ interpBound := by unfold interpBound; positivity
+
+/-- over ℚ: the exact point `x0 + w (x1 − x0)`, `w = (D − D0)/(D1 − D0) ∈ [0, 1]`, of a segment whose chord is at most
+`(D1 − D0)(1 + κ)` is within `(D1 − D)(1 + κ)` of `x1` and within `(D − D0)(1 + κ)` of `x0`. -/
+theorem seg_point_to_ends (x0 x1 D D0 D1 κ : ℚ) (h01 : D0 < D1)
+    (hw0 : 0 ≤ (D - D0) / (D1 - D0)) (hw1 : (D - D0) / (D1 - D0) ≤ 1)
+    (hc : |x1 - x0| ≤ (D1 - D0) * (1 + κ)) :
+    |x0 + (D - D0) / (D1 - D0) * (x1 - x0) - x1| ≤ (D1 - D) * (1 + κ) ∧
+    |x0 + (D - D0) / (D1 - D0) * (x1 - x0) - x0| ≤ (D - D0) * (1 + κ) := by
+  have hpos : 0 < D1 - D0 := by linarith
+  have hwG : (D - D0) / (D1 - D0) * (D1 - D0) = D - D0 := div_mul_cancel₀ _ hpos.ne'
+  generalize (D - D0) / (D1 - D0) = w at *
+  constructor
+  · have e : x0 + w * (x1 - x0) - x1 = -((1 - w) * (x1 - x0)) := by ring
+    rw [e, abs_neg, abs_mul, abs_of_nonneg (by linarith : (0 : ℚ) ≤ 1 - w)]
+    have h := mul_le_mul_of_nonneg_left hc (by linarith : (0 : ℚ) ≤ 1 - w)
+    have e2 : (1 - w) * ((D1 - D0) * (1 + κ)) = (D1 - D) * (1 + κ) := by
+      have : (1 - w) * (D1 - D0) = D1 - D := by linarith
+      rw [← mul_assoc, this]
+    linarith
+  · have e : x0 + w * (x1 - x0) - x0 = w * (x1 - x0) := by ring
+    rw [e, abs_mul, abs_of_nonneg hw0]
+    have h := mul_le_mul_of_nonneg_left hc hw0
+    have e2 : w * ((D1 - D0) * (1 + κ)) = (D - D0) * (1 + κ) := by rw [← mul_assoc, hwG]
+    linarith
+
+/-- every cumulative length of a curve with `0 <= lengths[0]` and a finite last length is finite and `>= 0`. -/
+theorem len_finite_nonneg (lengths : List Float) (hs : Sorted lengths) (a b : Float)
+    (ha : lengths[0]? = some a) (hb : lengths.getLast? = some b)
+    (ha0 : Scalar.le (0 : Float) a = true) (hbf : b.isFinite = true) (k : Nat) (x : Float) (hx : lengths[k]? = some x) :
+    x.isFinite = true ∧ Scalar.le (0 : Float) x = true := by
+  have hb' : lengths[lengths.length - 1]? = some b := by
+    rw [List.getLast?_eq_getElem?] at hb; exact hb
+  have hk : k < lengths.length := by
+    rcases Nat.lt_or_ge k lengths.length with h | h
+    · exact h
+    · rw [List.getElem?_eq_none h] at hx; cases hx
+  have h0 : Scalar.le (0 : Float) x = true := FMO.le_trans _ _ _ ha0 (hs 0 k a x (Nat.zero_le _) ha hx)
+  exact ⟨finite_of_between 0 x b rfl hbf h0 (hs k (lengths.length - 1) x b (by omega) hx hb'), h0⟩
+
+/-- **the binary search is monotone**: `lengths[0] <= d <= d' <= last` ⟹ `idx_of_dist d ≤ idx_of_dist d'`. Only order facts. -/
+theorem idxOfDist_mono_float (lengths : List Float) (hs : Sorted lengths) (d d' a b : Float)
+    (ha : lengths[0]? = some a) (hb : lengths.getLast? = some b)
+    (hlo : Scalar.le a d = true) (hdd : Scalar.le d d' = true) (hhi : Scalar.le d' b = true) :
+    idxOfDist lengths d ≤ idxOfDist lengths d' := by
+  obtain ⟨hil, d1, hd1, hle1, _, _, hpos⟩ :=
+    idxOfDist_bracket_float lengths hs d a b ha hb hlo (FMO.le_trans _ _ _ hdd hhi)
+  obtain ⟨hil', d1', hd1', hle1', hup', _, _⟩ :=
+    idxOfDist_bracket_float lengths hs d' a b ha hb (FMO.le_trans _ _ _ hlo hdd) hhi
+  generalize idxOfDist lengths d = i at *
+  generalize idxOfDist lengths d' = i' at *
+  by_contra hc
+  have hi : 0 < i := by omega
+  obtain ⟨d0, hd0, hle0, halt⟩ := hpos hi
+  rcases Nat.lt_or_ge i' (i - 1) with h | h
+  · have h1 := hup' (i - 1) d0 h hd0
+    rw [FMO.not_lt_of_le _ _ (FMO.le_trans _ _ _ hle0 hdd)] at h1; cases h1
+  · have : i' = i - 1 := by omega
+    subst this
+    rw [hd0] at hd1'; cases hd1'
+    rcases halt with ⟨h1, _⟩ | h1
+    · have h2 := FMO.lt_of_lt_of_le _ _ _ h1 hdd
+      rw [FMO.not_lt_of_le _ _ hle1'] at h2; cases h2
+    · have h2 := hup' i d1 (by omega) hd1
+      rw [FMO.not_lt_of_le _ _ (FMO.le_trans _ _ _ (FMO.le_of_eq _ _ h1) hdd)] at h2; cases h2
+
+/-- **the position is tied to both end vertices of its bracket.** Curve as in `positionAt_dist_err_float32_nofin`,
+`ChordBooked κ`, `lengths[0] <= d <= last`, `i = idx_of_dist lengths d`. The call returns a position `p`, and there is an
+"effective arc" `s ≤ d` — `s = d` when `i = 0` or the bracket is non-degenerate; `s = lengths[i−1]` when the bracket is
+degenerate (`p = path[i−1]`) — such that per coordinate `|p.x − x_i| ≤ (L_i − s)(1 + κ) + interpBound` and, for `0 < i`,
+`|p.x − x_{i−1}| ≤ (s − L_{i−1})(1 + κ) + interpBound`, `L_{i−1} ≤ s ≤ L_i`. -/
+theorem position_anchor_float32 (κ : ℚ) (hκ : 0 ≤ κ) (path : List (Pos Float32)) (lengths : List Float) (d a b : Float)
+    (hlen : path.length = lengths.length) (hs : Sorted lengths) (hbd : ∀ p ∈ path, C16.Bounded19 p)
+    (hfp : ∀ p ∈ path, C16.FinitePos p)
+    (ha : lengths[0]? = some a) (hb : lengths.getLast? = some b)
+    (ha0 : Scalar.le (0 : Float) a = true) (hbf : b.isFinite = true)
+    (hlo : Scalar.le a d = true) (hhi : Scalar.le d b = true) (hch : ChordBooked κ path lengths) :
+    ∃ (p : Pos Float32) (s : ℚ), interpolateVertices path lengths (idxOfDist lengths d) d = .ok p ∧
+      s ≤ toRat d ∧
+      ((idxOfDist lengths d = 0 ∨ ∀ d0 d1, lengths[idxOfDist lengths d - 1]? = some d0 →
+          lengths[idxOfDist lengths d]? = some d1 →
+          Scalar.le (Scalar.abs (d0 - d1)) (Scalar.eps : Float) = false) → s = toRat d) ∧
+      (∀ (p1 : Pos Float32) (d1 : Float), path[idxOfDist lengths d]? = some p1 → lengths[idxOfDist lengths d]? = some d1 →
+        s ≤ toRat d1 ∧
+        |toRat32 p.x - toRat32 p1.x| ≤ (toRat d1 - s) * (1 + κ) + interpBound ∧
+        |toRat32 p.y - toRat32 p1.y| ≤ (toRat d1 - s) * (1 + κ) + interpBound) ∧
+      (0 < idxOfDist lengths d → ∀ (p0 : Pos Float32) (d0 : Float), path[idxOfDist lengths d - 1]? = some p0 →
+        lengths[idxOfDist lengths d - 1]? = some d0 →
+        toRat d0 ≤ s ∧
+        |toRat32 p.x - toRat32 p0.x| ≤ (s - toRat d0) * (1 + κ) + interpBound ∧
+        |toRat32 p.y - toRat32 p0.y| ≤ (s - toRat d0) * (1 + κ) + interpBound) := by
+  obtain ⟨hil, d1, hd1, hle1, _, _, hpos⟩ := idxOfDist_bracket_float lengths hs d a b ha hb hlo hhi
+  obtain ⟨p, he, h⟩ := positionAt_dist_err_float32_nofin path lengths d a b hlen hs hbd hfp ha hb ha0 hbf hlo hhi
+  have fd : d.isFinite = true := finite_of_between 0 d b rfl hbf (FMO.le_trans _ _ _ ha0 hlo) hhi
+  have hIB := interpBound_nonneg
+  have hκ1 : (0 : ℚ) ≤ 1 + κ := by linarith
+  have hfl := len_finite_nonneg lengths hs a b ha hb ha0 hbf
+  generalize idxOfDist lengths d = i at *
+  have fd1 := (hfl i d1 hd1).1
+  have l1 : toRat d ≤ toRat d1 := toRat_le_of_le _ _ fd fd1 hle1
+  rcases h with ⟨hi0, hp0⟩ | ⟨hi, hp0, d0, d1', hd0, hd1', hdeg⟩ |
+    ⟨hi, p0, p1, d0, d1', hp0, hp1, hd0, hd1', hle0, _, l01, hpe, ⟨hw0, hw1⟩, hx, hy⟩
+  · -- a hit of `lengths[0]`
+    subst hi0
+    refine ⟨p, toRat d, he, le_refl _, fun _ => rfl, ?_, fun h => absurd h (by omega)⟩
+    intro p1 d1' hp1 hd1'
+    rw [hp0] at hp1; cases hp1
+    rw [hd1] at hd1'; cases hd1'
+    have := mul_nonneg (sub_nonneg.mpr l1) hκ1
+    refine ⟨l1, ?_, ?_⟩ <;> rw [sub_self, abs_zero] <;> linarith
+  · -- degenerate bracket: the vertex `path[i−1]`
+    rw [hd1] at hd1'; cases hd1'
+    obtain ⟨d0', hd0', hle0, _⟩ := hpos hi
+    rw [hd0] at hd0'; cases hd0'
+    have fd0 := (hfl (i - 1) d0 hd0).1
+    have l0 : toRat d0 ≤ toRat d := toRat_le_of_le _ _ fd0 fd hle0
+    refine ⟨p, toRat d0, he, l0, ?_, ?_, ?_⟩
+    · rintro (h | h)
+      · omega
+      · have := h d0 d1 hd0 hd1
+        rw [this] at hdeg; cases hdeg
+    · intro p1 d1' hp1 hd1'
+      rw [hd1] at hd1'; cases hd1'
+      obtain ⟨cx, cy⟩ := hch (i - 1) p p1 d0 d1 hp0 (by rw [Nat.sub_add_cancel hi]; exact hp1) hd0
+        (by rw [Nat.sub_add_cancel hi]; exact hd1)
+      refine ⟨by linarith, ?_, ?_⟩
+      · rw [abs_sub_comm]; linarith
+      · rw [abs_sub_comm]; linarith
+    · intro _ p0' d0' hp0' hd0'
+      rw [hp0] at hp0'; cases hp0'
+      rw [hd0] at hd0'; cases hd0'
+      refine ⟨le_refl _, ?_, ?_⟩ <;> rw [sub_self, abs_zero, sub_self, zero_mul, zero_add] <;> exact hIB
+  · -- interpolated
+    subst hpe
+    rw [hd1] at hd1'; cases hd1'
+    obtain ⟨cx, cy⟩ := hch (i - 1) p0 p1 d0 d1 hp0 (by rw [Nat.sub_add_cancel hi]; exact hp1) hd0
+      (by rw [Nat.sub_add_cancel hi]; exact hd1)
+    obtain ⟨ux, lx⟩ := seg_point_to_ends (toRat32 p0.x) (toRat32 p1.x) (toRat d) (toRat d0) (toRat d1) κ l01 hw0 hw1 cx
+    obtain ⟨uy, ly⟩ := seg_point_to_ends (toRat32 p0.y) (toRat32 p1.y) (toRat d) (toRat d0) (toRat d1) κ l01 hw0 hw1 cy
+    have fd0 := (hfl (i - 1) d0 hd0).1
+    have l0 : toRat d0 ≤ toRat d := toRat_le_of_le _ _ fd0 fd hle0
+    refine ⟨_, toRat d, he, le_refl _, fun _ => rfl, ?_, ?_⟩
+    · intro p1' d1' hp1' hd1'
+      rw [hp1] at hp1'; cases hp1'
+      rw [hd1] at hd1'; cases hd1'
+      refine ⟨l1, ?_, ?_⟩
+      · have := abs_sub_le (toRat32 (interpPos p0 p1 d d0 d1).x)
+          (toRat32 p0.x + (toRat d - toRat d0) / (toRat d1 - toRat d0) * (toRat32 p1.x - toRat32 p0.x)) (toRat32 p1.x)
+        linarith
+      · have := abs_sub_le (toRat32 (interpPos p0 p1 d d0 d1).y)
+          (toRat32 p0.y + (toRat d - toRat d0) / (toRat d1 - toRat d0) * (toRat32 p1.y - toRat32 p0.y)) (toRat32 p1.y)
+        linarith
+    · intro _ p0' d0' hp0' hd0'
+      rw [hp0] at hp0'; cases hp0'
+      rw [hd0] at hd0'; cases hd0'
+      refine ⟨l0, ?_, ?_⟩
+      · have := abs_sub_le (toRat32 (interpPos p0 p1 d d0 d1).x)
+          (toRat32 p0.x + (toRat d - toRat d0) / (toRat d1 - toRat d0) * (toRat32 p1.x - toRat32 p0.x)) (toRat32 p0.x)
+        linarith
+      · have := abs_sub_le (toRat32 (interpPos p0 p1 d d0 d1).y)
+          (toRat32 p0.y + (toRat d - toRat d0) / (toRat d1 - toRat d0) * (toRat32 p1.y - toRat32 p0.y)) (toRat32 p0.y)
+        linarith
+
 end Rosu.C19
